@@ -352,10 +352,9 @@ func (d *deriver) run(formatter string) (*Derived, error) {
 	if err != nil {
 		return und("%v", err)
 	}
-	reg, err := d.fillStruct(tRegistry, "registry", map[string]interp.Value{
-		"srcPkgName": interp.Lit(SrcPkgName), "srcPkgTypes": d.srcPkg(), "moqPkgPath": interp.Lit(moqPkgPath),
-		"aliases": &interp.MapV{}, "imports": &interp.MapV{},
-	})
+	// the registry is a model: its value is opaque to the interpreted code (no field of it is read), its
+	// exported API is modelled below; what the real one does is decided by engines R and N
+	reg, err := d.fillStruct(tRegistry, "registry", nil)
 	if err != nil {
 		return und("%v", err)
 	}
@@ -412,7 +411,7 @@ func (d *deriver) run(formatter string) (*Derived, error) {
 			ifaceByName[mi.IfaceName] = i
 		}
 	}
-	d.m.Ext["("+regPath+".Registry).LookupInterface"] = func(m *interp.Machine, pos token.Pos, recv interp.Value, args []interp.Value) (interp.Value, error) {
+	lookupModel := func(m *interp.Machine, pos token.Pos, recv interp.Value, args []interp.Value) (interp.Value, error) {
 		name, _ := args[0].(*interp.Sym)
 		if name == nil {
 			return nil, &interp.ErrUndecided{Pos: pos, Msg: "LookupInterface with a non-string argument"}
@@ -435,6 +434,27 @@ func (d *deriver) run(formatter string) (*Derived, error) {
 		}
 		iface, tparams := d.ifaceOpaque(i)
 		return interp.Tuple{iface, tparams, d.errVal("LookupInterface(" + name.Flat() + ")")}, nil
+	}
+	d.m.Ext["("+regPath+".Registry).LookupInterface"] = lookupModel
+	d.m.Ext["(*"+regPath+".Registry).LookupInterface"] = lookupModel
+	tScope, err := d.namedStruct(load.PkgRegistry, "MethodScope")
+	if err != nil {
+		return und("%v", err)
+	}
+	for _, recvForm := range []string{"(" + regPath + ".Registry).", "(*" + regPath + ".Registry)."} {
+		d.m.Ext[recvForm+"SrcPkgName"] = func(m *interp.Machine, pos token.Pos, recv interp.Value, args []interp.Value) (interp.Value, error) {
+			return interp.Lit(SrcPkgName), nil
+		}
+		d.m.Ext[recvForm+"SrcPkg"] = func(m *interp.Machine, pos token.Pos, recv interp.Value, args []interp.Value) (interp.Value, error) {
+			return d.srcPkg(), nil
+		}
+		d.m.Ext[recvForm+"MethodScope"] = func(m *interp.Machine, pos token.Pos, recv interp.Value, args []interp.Value) (interp.Value, error) {
+			sc, err := d.fillStruct(tScope, fmt.Sprintf("scope%d", m.NextSeq()), nil)
+			if err != nil {
+				return nil, &interp.ErrUndecided{Pos: pos, Msg: err.Error()}
+			}
+			return &interp.Ptr{Elem: sc}, nil
+		}
 	}
 	mkPackage := func(pkg *interp.Opaque, alias string) *interp.Struct {
 		a := interp.Lit("")
@@ -468,14 +488,16 @@ func (d *deriver) run(formatter string) (*Derived, error) {
 		d.importOrder = append(d.importOrder, path)
 		return &interp.Ptr{Elem: s}
 	}
-	d.m.Ext["(*"+regPath+".Registry).AddImport"] = func(m *interp.Machine, pos token.Pos, recv interp.Value, args []interp.Value) (interp.Value, error) {
+	addImportModel := func(m *interp.Machine, pos token.Pos, recv interp.Value, args []interp.Value) (interp.Value, error) {
 		pkg, _ := args[0].(*interp.Opaque)
 		if pkg == nil || pkg.Kind != "types.Package" {
 			return nil, &interp.ErrUndecided{Pos: pos, Msg: "AddImport of " + interp.Show(args[0])}
 		}
 		return addImport(pkg, "direct@"+prog.Pos(pos)), nil
 	}
-	d.m.Ext["("+regPath+".Registry).Imports"] = func(m *interp.Machine, pos token.Pos, recv interp.Value, args []interp.Value) (interp.Value, error) {
+	d.m.Ext["(*"+regPath+".Registry).AddImport"] = addImportModel
+	d.m.Ext["("+regPath+".Registry).AddImport"] = addImportModel
+	importsModel := func(m *interp.Machine, pos token.Pos, recv interp.Value, args []interp.Value) (interp.Value, error) {
 		var paths []string
 		for p := range d.imports {
 			paths = append(paths, p)
@@ -488,6 +510,8 @@ func (d *deriver) run(formatter string) (*Derived, error) {
 		d.ev("imports", strings.Join(paths, ","))
 		return l, nil
 	}
+	d.m.Ext["("+regPath+".Registry).Imports"] = importsModel
+	d.m.Ext["(*"+regPath+".Registry).Imports"] = importsModel
 	depPkg := func(path string) *interp.Opaque {
 		name := "dep"
 		if path == Dep2Path {
@@ -496,7 +520,7 @@ func (d *deriver) run(formatter string) (*Derived, error) {
 		return &interp.Opaque{Kind: "types.Package", ID: path, GoType: "*go/types.Package", Attrs: map[string]interp.Value{"path": interp.Lit(path), "name": interp.Lit(name)}}
 	}
 	nscope := 0
-	d.m.Ext["(*"+regPath+".MethodScope).AddVar"] = func(m *interp.Machine, pos token.Pos, recv interp.Value, args []interp.Value) (interp.Value, error) {
+	addVarModel := func(m *interp.Machine, pos token.Pos, recv interp.Value, args []interp.Value) (interp.Value, error) {
 		vr, _ := args[0].(*interp.Opaque)
 		suffix, _ := args[1].(*interp.Sym)
 		sc, _ := recv.(*interp.Ptr)
@@ -529,14 +553,18 @@ func (d *deriver) run(formatter string) (*Derived, error) {
 		d.vars[vr.ID] = rec
 		name := interp.Concat(vr.Attrs["name"].(*interp.Sym), interp.Lit(sfx))
 		d.ev("addvar", fmt.Sprintf("%s scope=%d suffix=%q", vr.ID, rec.scope, sfx))
-		s, err := d.fillStruct(tVar, vr.ID, map[string]interp.Value{"vr": vr, "imports": &interp.MapV{}, "moqPkgPath": interp.Lit(moqPkgPath), "Name": name})
+		s, err := d.fillStruct(tVar, vr.ID, map[string]interp.Value{"Name": name})
 		if err != nil {
 			return nil, &interp.ErrUndecided{Pos: pos, Msg: err.Error()}
 		}
+		s.Aux = map[string]interp.Value{"vr": vr}
 		// the Var's type opaque must be owned by this Var for the qualifier check of TypeString
 		typ.ID = vr.ID + ".type"
 		return &interp.Ptr{Elem: s}, nil
 	}
+	d.m.Ext["(*"+regPath+".MethodScope).AddVar"] = addVarModel
+	d.m.Ext["("+regPath+".MethodScope).AddVar"] = addVarModel
+	InstallVarModels(d.m)
 	// ---- go/types constructors
 	d.m.Ext["go/types.NewPackage"] = func(m *interp.Machine, pos token.Pos, recv interp.Value, args []interp.Value) (interp.Value, error) {
 		p, _ := args[0].(*interp.Sym)
